@@ -172,6 +172,40 @@ def run(chk, solver_agreement_only=False):
             ok, dv = close([ent["norm"]], [want_norm], 1e-8)
             if not ok:
                 oracle_bad.append(dict(info, op="normalization", expected=float(want_norm), observed=ent["norm"]))
+    # mean specifications of every TYPE: integer-typed constants / arrays / integer-valued callables with real-valued y, 2-D inputs
+    if not solver_agreement_only:
+        import jax
+        import jax.numpy as jnp
+        from tinygp import GaussianProcess, kernels
+        from tinygp.kernels import quasisep as qsk
+        rngm = np.random.default_rng(chk.seed + 11)
+        for n_ in (1, 4):
+            X2 = rngm.normal(size=(n_, 2))
+            xq = np.sort(rngm.uniform(0, 4, size=n_))
+            yv = rngm.normal(size=n_) * 1.7 + 0.37
+            dgv = rngm.uniform(0.2, 0.6, size=n_)
+            for mdesc, marg, mval in (("int 2", 2, 2.0), ("int 0", 0, 0.0), ("np.int64(3)", np.int64(3), 3.0), ("jnp int array", jnp.array(2), 2.0),
+                                      ("callable returning int", (lambda x: jnp.asarray(1)), 1.0), ("float 0.5", 0.5, 0.5)):
+                for kdesc, kern_, Xa, Xn in (("ExpSquared 2-D", kernels.ExpSquared(jnp.asarray(1.1)), jnp.asarray(X2), X2),
+                                             ("qs.Matern32", qsk.Matern32(jnp.asarray(1.2)), jnp.asarray(xq), xq)):
+                    Km = np.asarray(kern_(Xa, Xa)) + np.diag(dgv)
+                    r = yv - mval
+                    want_m = -0.5 * r @ np.linalg.solve(Km, r) - 0.5 * np.linalg.slogdet(Km)[1] - 0.5 * n_ * LOG2PI
+                    hist["mean-type"] = hist.get("mean-type", 0) + 1
+                    try:
+                        gpm = GaussianProcess(kern_, Xa, diag=jnp.asarray(dgv), mean=marg)
+                        got = [("log_probability", float(gpm.log_probability(jnp.asarray(yv)))),
+                               ("log_probability(jit)", float(jax.jit(lambda yy: gpm.log_probability(yy))(jnp.asarray(yv)))),
+                               ("condition().log_probability", float(gpm.condition(jnp.asarray(yv)).log_probability))]
+                    except Exception as e:  # noqa: BLE001
+                        oracle_bad.append(dict(op="log_probability with mean " + mdesc, kernel=kdesc, n=n_, observed=f"raised {type(e).__name__}: {str(e)[:80]}",
+                                               expected=float(want_m)))
+                        continue
+                    for op_, v_ in got:
+                        ok, dv = close([v_], [want_m], 1e-8)
+                        if not ok:
+                            oracle_bad.append(dict(op=op_ + " with mean " + mdesc, kernel=kdesc, n=n_, X=np.asarray(Xn).tolist(), y=yv.tolist(),
+                                                   diag=dgv.tolist(), expected=float(want_m), observed=v_))
     # solver interchangeability (C03): every solver that accepts the model reports the same value
     for c in cases:
         vals = {s: e["logp"] for s, e in c["solvers"].items()}
@@ -194,7 +228,7 @@ def run(chk, solver_agreement_only=False):
     chk.cov["distinct_nontrivial"] = len(distinct)
     chk.cov["rule"] = ("models cycle over 6 quasiseparable and 3 dense kernel expressions x {scalar, per-point, banded, dense} noise x "
                        "{no, constant, callable} mean x sizes from 1 with coincident points, for every solver accepting the model "
-                       "(direct / quasisep / kalman); eager and jit; condition().log_probability and numpyro log_prob; plus non-PD / non-finite inputs; "
+                       "(direct / quasisep / kalman); eager and jit; condition().log_probability and numpyro log_prob; integer-typed / array / callable means with real data; plus non-PD / non-finite inputs; "
                        "distinct = different (solver, kernel, noise, mean, n)")
     chk.cov["input_histogram"] = hist
     chk.cov["max_model_impl_deviation"] = maxdev
